@@ -156,6 +156,17 @@ def write_pdf(pages: list, props: dict | None = None, images: dict | None = None
             # a blank page needs no content stream: /Contents is optional (every second blank page is written so)
             kids.append(add(b"<< /Type /Page /Parent %d 0 R /MediaBox [0 0 612 792] /Resources << >> >>" % pages_id))
             continue
+        if rotate and lines and not (images or {}).get(pi) and pi % 4 == 2:
+            # third page of every four: the text is painted through a form XObject that has its own font resources;
+            # the page's /Resources hold only /XObject
+            fstream = b"\n".join(content)
+            form = add(b"<< /Type /XObject /Subtype /Form /BBox [0 0 612 792] /Resources << /Font << /F1 %d 0 R >> >> /Length %d >>\nstream\n"
+                       % (font, len(fstream)) + fstream + b"\nendstream")
+            pstream = b"q /Fm1 Do Q"
+            cid = add(b"<< /Length %d >>\nstream\n" % len(pstream) + pstream + b"\nendstream")
+            kids.append(add(b"<< /Type /Page /Parent %d 0 R /MediaBox [0 0 612 792] /Contents %d 0 R /Resources << /XObject << /Fm1 %d 0 R >> >> >>"
+                            % (pages_id, cid, form)))
+            continue
         stream = b"\n".join(content)
         cid = add(b"<< /Length %d >>\nstream\n" % len(stream) + stream + b"\nendstream")
         res = b"<< /Font << /F1 %d 0 R >> " % font + (b"/XObject << " + xobjs + b">> " if xobjs else b"") + b">>"
